@@ -800,7 +800,10 @@ void GlobalGraph::makeDirected()
       Node nodeB = currRelation.first;
       Edge edge = currRelation.second;
       if (alreadyConvertedRelations.insert(pair<Node, Node>(min(nodeA, nodeB), max(nodeA, nodeB))).second)
+      {
         linkInNodeStructure_(nodeA, nodeB, edge);
+        edgeStructure_[edge] = pair<Node, Node>(nodeA, nodeB);
+      }
     }
   }
   directed_ = true;
